@@ -346,7 +346,8 @@ def explore(ctx):
     # C
     casesC = []
     for dt in ('int16', 'float32', 'float64'):
-        for l in ({'backend': 'array', 'parts': [6]}, {'backend': 'flat', 'parts': [2, 4]}):
+        for l in ({'backend': 'array', 'parts': [6]}, {'backend': 'flat', 'parts': [2, 4]},
+                  {'backend': 'flat', 'parts': [3, 3], 'big': True}):
             l = dict(l, dtype=dt, n_channels=3, offset=0, sample_rate=3 / 600.0, fill=ctx.seed)
             casesC.append({'sweep': 'C', 'layout': l})
     ctx.run_cases(run_case, casesC, chunk=1, sweep='C-declared-dtype')
